@@ -15,8 +15,13 @@ def dyadic(rng, lo=-64, hi=64):
     return rng.randrange(lo, hi + 1) / 8.0
 
 
-def gen_case(rng, multi_axis=False, k=None, N=None, general=False):
-    base = G.gen_dims(rng, k=k, N=N, max_extent=4, multi_axis=multi_axis, max_hi=3)
+def gen_case(rng, multi_axis=False, k=None, N=None, general=False, wide=None):
+    """wide: None | 'u8' | 'u16' - extents (or their product) straddle the 2^8 / 2^16 boundary of the narrow
+    coordinate types the array cube picks"""
+    if wide:
+        base = G.gen_wide_dims(rng, big=(wide == "u16"))
+    else:
+        base = G.gen_dims(rng, k=k, N=N, max_extent=4, multi_axis=multi_axis, max_hi=3)
     N = base["N"]
     K = rng.choice([None, None, 1, 2, 3])              # fact columns: None = 1-D fact
     fshape = (N,) if K is None else (N, K)
@@ -30,13 +35,17 @@ def gen_case(rng, multi_axis=False, k=None, N=None, general=False):
     if form == "pair_int":
         fvals = np.round(fvals).astype(np.int64)
     wkind = rng.choice(["none", "none", "scalar", "array", "array_valid"])
+    if general == "residue":     # weights whose partial sums are inexact: differencing leaves ~1e-17 where a cell is empty
+        wkind = rng.choice(["array", "array_valid"])
     if wkind == "none":
         w = None
     elif wkind == "scalar":
         w = ("scalar", rng.choice([0.0, 0.5, 1.0, 2.0, 2.5]), True)
     else:
         wv = np.array([rng.choice([0.0, 0.125, 0.5, 1.0, 1.0, 2.0, 3.5]) for _ in range(N)])
-        if general:
+        if general == "residue":
+            wv = np.array([rng.choice([0.1, 0.2, 0.3, 0.7, 1.1, 2.3]) for _ in range(N)])
+        elif general:
             wv = np.array([rng.uniform(0, 5) for _ in range(N)])
         wok = np.array([rng.random() >= rng.choice([0.0, 0.0, 0.2]) for _ in range(N)], dtype=bool)
         w = (wkind, wv, wok)
@@ -89,13 +98,18 @@ def ret_arg(ret):
 def call(cube, func, case, ret):
     """returns (values float ndarray, missing bool ndarray | None for the plain format)"""
     kw = dict(ignore_missing=case["ignore"], return_missing_as=ret_arg(ret))
-    w = weights_arg(case)
+    if case.get("share_args"):     # the caller keeps ONE fact / weights object and passes it to every call of the case
+        if "_args" not in case:
+            case["_args"] = (fact_arg(case), weights_arg(case))
+        f, w = case["_args"]
+    else:
+        f, w = fact_arg(case), weights_arg(case)
     if func == "count":
         if not case["dense"]:
             kw["N"] = case["N"]
         out = cube.count(weights=w, **kw)
     else:
-        out = getattr(cube, func)(fact_arg(case), weights=w, **kw)
+        out = getattr(cube, func)(f, weights=w, **kw)
     if ret[0] == "pair":
         vals, valid = out
         return np.asarray(vals, dtype=float), ~np.asarray(valid, dtype=bool)
@@ -134,8 +148,11 @@ def direct_cells(case, func, cols_1d, shape, col):
     N = case["N"]
     rows = row_ok_val(case, func, col)
     cells = {}
+    groups = {}
+    for r in range(N):
+        groups.setdefault(tuple(int(c[r]) for c in cols_1d), []).append(r)
     for cell in itertools.product(*[range(s) for s in shape]):
-        rs = [r for r in range(N) if all(int(c[r]) == v for c, v in zip(cols_1d, cell))]
+        rs = groups.get(cell, ())
         nvalid = sum(1 for r in rs if rows[r][0])
         nmiss = len(rs) - nvalid
         num = sum((rows[r][1] for r in rs), Fraction(0))
